@@ -54,6 +54,8 @@ def run(ctx):
     ctx.rule("C05.R4", "save-set partition: every allocatable register is either declared clobbered by calls or saved by the callee", floor=40)
     phi_lowering(ctx, "C05.R6")
     _every_call_declares_clobbers(ctx)
+    from .c29 import cast_lowering
+    cast_lowering(ctx, "C05.R8")
     ctx.rule("C05.R5", "riscv large immediates: lui part incremented exactly when bit 11 of the value is set; addi takes the low 12 bits", floor=3)
     project = ctx.project
     dump = ctx.isa()
